@@ -180,6 +180,16 @@ func (fr *Frame) callWithArgs(s *State, g *Term, call *ssa.CallCommon, ins ssa.I
 			return m.apply(fr, s, g, call, args, pos)
 		}
 		fc := x.P.Contracts[key]
+		if ta := callee.TypeArgs(); len(ta) > 0 {
+			// a contract written for one instantiation of a generic function: `func pkg.(*T).M[typeargs]`
+			var ss []string
+			for _, t := range ta {
+				ss = append(ss, types.TypeString(t, nil))
+			}
+			if ifc := x.P.Contracts[key+"["+strings.Join(ss, ",")+"]"]; ifc != nil {
+				fc = ifc
+			}
+		}
 		if fc != nil && (fc.Pure || fc.Inline) {
 			if callee.Blocks == nil {
 				panic("pure/inline function without body: " + key)
@@ -401,6 +411,13 @@ func (fr *Frame) applyContract(s *State, g *Term, fc *FuncContract, callee *ssa.
 	var cf *Frame
 	if callee != nil {
 		cf = x.newFrame(callee, fr)
+		if cf.contract != fc {
+			// a contract for one instantiation of a generic function
+			cf.contract = fc
+			if p := x.P.PkgByPath[fc.PkgPath]; p != nil {
+				cf.pkg = p
+			}
+		}
 	} else {
 		cf = &Frame{x: x, key: fc.Key, contract: fc, parent: fr, olds: map[string]*Term{}, oldTypes: map[string]types.Type{}, ghostTypes: map[string]types.Type{}, compiled: map[*Clause]*Compiled{}, pkg: x.P.PkgByPath[fc.PkgPath]}
 	}
